@@ -88,6 +88,9 @@ pub struct NetClientOutcome {
     pub refused: bool,
     pub accepted_ns: Option<u64>,
     pub closed_ns: Option<u64>,
+    /// when the server let go of its end altogether (the socket object was dropped: both directions closed)
+    #[serde(default)]
+    pub released_ns: Option<u64>,
     pub rx_total: u64,
     pub avail: Vec<(u64, u64)>,
     pub finished: bool,
@@ -359,6 +362,7 @@ async fn run_net_async(sc: &NetScenario) -> NetOutcome {
     for (i, s) in slots.borrow_mut().iter_mut().enumerate() {
         let peer: SocketAddr = sc.clients[i].peer.parse().unwrap();
         let accepted_ns = accept_log.iter().find(|(_, p)| *p == peer).map(|(t, _)| t.saturating_duration_since(t0).as_nanos() as u64);
+        let released_ns = s.st.as_ref().and_then(|st| st.lock().unwrap().dropped_ns);
         let (closed_ns, rx_total, avail) = match &s.st {
             Some(st) => {
                 let mut st = st.lock().unwrap();
@@ -381,6 +385,7 @@ async fn run_net_async(sc: &NetScenario) -> NetOutcome {
             refused: s.refused,
             accepted_ns,
             closed_ns,
+            released_ns,
             rx_total,
             avail,
             finished,
